@@ -68,6 +68,8 @@ def _int_set(name):
             T.observe(lambda: grp(p=R.p, q=R.q, g=g2))
             acc.n(evaluations=1, transitions=1)
         acc.merge(_int_set_once(name, "(after-other-constructor-calls)"))
+        _use_operators(inst)
+        acc.merge(_int_set_once(name, "(after-comparing-the-constants)"))
     return acc
 
 
@@ -100,6 +102,20 @@ def _int_set_once(name, tag):
     return acc
 
 
+def _use_operators(inst):
+    """distinctness of Base, Zero, M, N, S through the element API's own == / != (the interface documents them); results are
+    judged by C13 - here only the constants are re-evaluated afterwards (they must not depend on having been compared)"""
+    P = inst.params
+    es = [P.group.Base, P.group.Zero, P.M, P.N, P.S]
+    out = []
+    for a in es:
+        for b in es:
+            out.append((T.observe(lambda: a == b), T.observe(lambda: a != b)))
+        T.observe(lambda: a.add(P.group.Zero))
+        T.observe(lambda: a.scalarmult(1))
+    return out
+
+
 def _mns(acc, inst, name):
     R = inst.ref
     froz = golden.load()["MNS"][inst.name]
@@ -118,10 +134,9 @@ def _mns(acc, inst, name):
     clause(acc, name, "M-N-S-G-pairwise-distinct", None not in vals and len(set(vals)) == 4, "4 distinct", len(set(vals)))
 
 
-def _ed(acc):
-    name = "ParamsEd25519"
+def _ed(acc, name="ParamsEd25519"):
     L = T.lib()
-    inst, why = T.try_get(name)
+    inst, why = T.try_get("ParamsEd25519")
     if inst is None:
         acc.degrade("%s unavailable: %s" % (name, why))
         return
@@ -165,6 +180,9 @@ def _ed(acc):
             acc.degrade("order certificate self-check failed on toy curve %d" % tq)
         else:
             acc.seen(("toy-certificate", tq, okc))
+    if not name.endswith(")"):
+        _use_operators(inst)
+        _ed(acc, "ParamsEd25519(after-comparing-the-constants)")
     acc.n(states=1, traces=1)
     acc.sample({"set": name, "clauses": ["field", "L prime", "B", "L*B=0", "#E=8L certificate", "M,N,S"]})
 
